@@ -14,6 +14,30 @@ def tier_n(tier, quick, thorough):
     return thorough if tier == "thorough" else quick
 
 
+_DECIMAL_GRIDS = None
+
+
+def decimal_grid(rng, max_steps=9):
+    """(t0, h, nsteps) with a decimal (non-dyadic) timestep whose floating-point grid the library accepts: the library
+    asks that 1 + (end - start) / timestep be a whole number in floating point.  Mostly grids where (end - start) / timestep
+    itself falls one ulp short of the number of steps, the cases a careless rounding of the number of points loses."""
+    global _DECIMAL_GRIDS
+    if _DECIMAL_GRIDS is None:
+        good = []
+        for t0 in ["0", "1", "2", "5", "10", "-1", "1/5", "3/10"]:
+            for h in ["1/10", "3/10", "9/20", "9/10", "9/5", "7/10", "1/5", "3/5", "7/5", "11/10", "1/100", "3/20"]:
+                for n in range(1, 10):
+                    a, hh, b = float(Fraction(t0)), float(Fraction(h)), float(Fraction(t0) + n * Fraction(h))
+                    ns = 1 + (b - a) / hh
+                    if b > a and ns % 1 == 0 and int(ns) == n + 1:
+                        good.append((t0, h, n, ((b - a) / hh) != n))
+        _DECIMAL_GRIDS = good
+    pool = [g for g in _DECIMAL_GRIDS if g[2] <= max_steps]
+    short = [g for g in pool if g[3]]
+    t0, h, n, _ = rng.choice(short if (short and rng.random() < 0.7) else pool)
+    return t0, h, n
+
+
 def with_struct(programs):
     """first pass on the model side to learn the compartment list of each program"""
     probe = [dict(p, obs=[{"obs": "struct"}]) for p in programs]
